@@ -25,7 +25,7 @@ var rules = []*Rule{
 	{ID: "R8", Title: "KEY-EQUALITY: a hash hit is only a candidate", Props: []string{"C09", "C13", "C14", "C11"}, Run: func(p *Prog) []Ob {
 		return append(append(ruleR8(p), p.collectLoopAscends()...), p.ownBackingArray()...)
 	}},
-	{ID: "R10", Title: "DECODER-VALIDATION: nothing is returned before it is checked", Props: []string{"C14", "C07", "C05", "C11", "C09", "C01", "C17"}, Run: func(p *Prog) []Ob {
+	{ID: "R10", Title: "DECODER-VALIDATION: nothing is returned before it is checked", Props: []string{"C14", "C07", "C05", "C11", "C09", "C01", "C17", "C13"}, Run: func(p *Prog) []Ob {
 		return append(append(append(append(ruleR10(p), p.wholeItems()...), p.eofOrigin()...), p.freshMessage()...), p.wholeHeaderAndMappedAccess()...)
 	}},
 	{ID: "R11", Title: "COPY-LOOP: every record read is accounted for", Props: []string{"C01", "C02", "C03", "C05", "C07", "C08", "C11", "C12", "C17"}, Run: func(p *Prog) []Ob {
